@@ -1,18 +1,25 @@
-"""C02 — denial of existence is accepted or synthesised only when actually proven."""
+"""C02 — denial of existence is accepted, cached or synthesised only when actually proven."""
+
+_DN = {"middleware/resolver/dnssec": ["zz_verif_c02_*_test.go"]}
+_CA = {"middleware/cache": ["zz_verif_c02_*_test.go"]}
 
 CHECK = {
     "level": "exploration",
     "engines": ["zonemodel"],
-    "technique": "bounded-exhaustive input enumeration of the real NSEC/NSEC3 denial verifiers against an independent zone model (ground truth), soundness oracle",
-    "level_text": "PLACEHOLDER",
-    "level_note": "PLACEHOLDER",
-    "rule": "PLACEHOLDER",
-    "assumptions": [],
-    "bounds": {"quick": "", "thorough": ""},
+    "technique": "bounded-exhaustive input enumeration of the real NSEC/NSEC3 denial verifiers and of the real RFC 8198 denial-proof store against an independent zone model (ground truth); soundness-only oracle",
+    "level_text": "A reference zone model (own canonical ordering, RFC 4592 closest-encloser/wildcard logic, empty non-terminals, one delegation with/without DS and occluded names below it, one DNAME owner, case-variant/binary/escaped-dot labels) generates each zone's GENUINE NSEC chain and NSEC3 chains (4 salt/iteration tuples, no opt-out / opt-out flag on all records / opt-out flag only on spans that skip an insecure delegation). Every subset of <=3 chain records (plus the full chain), optionally polluted with one foreign record (second parameter tuple, child-zone or sibling-zone record, class-flipped copy, child-apex NSEC), is handed to the real VerifyNameErrorNSEC, VerifyNODATANSEC, VerifyDelegationNSEC, VerifyNameErrorForZoneWithWork, VerifyNODATAForZoneWithWork, VerifyDelegationForZoneWithWork, VerifyWildcardAnswerForZoneWithWork, EvaluateAggressiveNSEC / NSECSet / NSECPrepared and EvaluateAggressiveNSEC3 for every query name of the alphabet x qtype x claimed result; every acceptance is judged against the model. Unit 'cache' admits every ordered pair of genuine proof bundles into the real Store.RecordDenialProof and asks Store.GetWithContext for every alphabet name x qtype at three instants (all live / first bundle expired / all expired), plus CD=1 and ECS variants.",
+    "level_note": "Soundness only: rejections are never judged. Trusted: miekg dns.HashName (NSEC3 hash) and the model itself; RRSIG validity is out of scope (C01), so the NSEC exact-answer verifiers are called the way Resolver.authority calls them (ValidateSigner + FilterRRsToZone first). SHA-1 collisions, names outside the label alphabet, DNAME-in-answer rewriting of the question and the RFC 8020 cut admission path (cache.ResponseWriter) are not enumerated.",
+    "rule": "zones = all subsets (size cap per tier) of 14 candidate owners without duplicate owner names, smallest first; inputs = all <=3-subsets of the genuine chain (+ full chain) x pollution variants x all query names x {A,NS,DS,CNAME,TXT} x {NXDOMAIN, NODATA, insecure delegation, wildcard-expanded answer, aggressive synthesis}; 'nontrivial' = distinct (zone, chain variant, record subset, pollution, qname, qtype, claim) cases in which the real verifier ACCEPTED (cache unit: distinct (history, instant, qname, qtype) lookups answered from the proof index); sanity counter complete_proofs_accepted = genuine full-chain proofs of model-true claims accepted by the real code (must be > 0 per verifier family, else harness error)",
+    "assumptions": ["signatures are checked elsewhere: every record fed in is a genuine record of the modelled zone (or an explicitly labelled foreign one)",
+                    "one delegation owner and one DNAME owner per zone, depth <= 3 below the apex"],
+    "bounds": {"quick": "zones of <=3 owners out of the first 13 candidates (all but the upper-case owner; 320 zones); 91 query names (depth<=2 full 6-label alphabet, depth 3 over {a,b,*}, depth 4 over {a,b}, apex, 5 out-of-zone); NSEC + 1 NSEC3 tuple (rotating per zone) x 3 opt-out modes; record subsets <=3 + full chain; pollution on subsets <=2. cache unit: zones of <=2 owners, bundles of <=2 records, histories of 1-2 bundles",
+               "thorough": "zones of <=4 owners out of 14 candidates (1107 zones); 105 query names (7-label alphabet incl. c at depth<=2); otherwise as quick, + EvaluateAggressiveNSECPrepared. cache unit: zones of <=3 owners"},
     "units": {
-        "verifiers": {"pkg": "middleware/resolver/dnssec", "run": "TestVerifC02Verifiers",
-                      "harness": {"middleware/resolver/dnssec": ["zz_verif_c02_*_test.go"]},
-                      "budget_s": {"quick": 80, "thorough": 780},
+        "verifiers": {"pkg": "middleware/resolver/dnssec", "run": "TestVerifC02Verifiers", "harness": _DN,
+                      "budget_s": {"quick": 120, "thorough": 840},
                       "timeout_s": {"quick": 300, "thorough": 1500}},
+        "cache": {"pkg": "middleware/cache", "run": "TestVerifC02Cache", "harness": _CA,
+                  "budget_s": {"quick": 100, "thorough": 600},
+                  "timeout_s": {"quick": 300, "thorough": 1200}},
     },
 }
